@@ -17,6 +17,7 @@ LEVELS = {
 }
 LEVELS["kc"] = [3, 1, 2]  # numbers stored as a pandas categorical (by the harness that uses it)
 LEVELS["inc"] = [">50K", "<=50K", "n/a", "St. Louis"]  # levels with punctuation and blanks
+LEVELS["ws"] = ["b ", "b", " b", "b  ", "B"]  # level names that differ only by surrounding blanks or case
 LEVELS["wid"] = [f"G{i:03d}" for i in range(260)]  # a grouping factor with a few hundred groups
 NUMERIC_LEVELS = {"k": np.int64, "kb": np.int64, "kf": np.float64, "kc": np.int64}
 NUMS = ["x", "z"]
@@ -26,7 +27,7 @@ CATS = ["f", "g", "h"]
 def used_vars(formula):
     """variable names (from our fixed vocabulary) that occur in the formula text"""
     names = set(re.findall(r"[A-Za-z_][A-Za-z0-9_.]*", formula))
-    return [v for v in ["y", "x", "z", "f", "g", "h", "k", "kb", "kf", "kc", "wid", "inc", "w", "n", "s", "w12", "q1"] if v in names]
+    return [v for v in ["y", "x", "z", "f", "g", "h", "k", "kb", "kf", "kc", "wid", "inc", "ws", "w", "n", "s", "w12", "q1"] if v in names]
 
 
 def cat_rows(cats, order, reps=1):
